@@ -94,10 +94,11 @@ let () = register "c08.history" (c08_line deployed)
 let () = register "c08.raw" (c08_line deployed)
 (* watched notifications naming several files *)
 let () = register "c08.batch" (c08_line deployed)
-(* the same history against the model with all repairs switched on / with those of round 1 only / with none (not
+(* the same history against the model with all repairs switched on / with those of round 1 / round 2 only / with none (not
    deciding legs; used by hand to validate a repair diff against a patched or an old copy of the code) *)
 let () = register "c08.history_fixed" (c08_line all_fix)
 let () = register "c08.history_round1" (c08_line round1)
+let () = register "c08.history_round2" (c08_line round2)
 let () = register "c08.history_unfixed" (c08_line no_fix)
 
 let () = main ()
